@@ -1022,9 +1022,13 @@ func directed() []string {
 
 func gen(r *hx.Rng, n int, tier string) []string {
 	g := &G{r: r, tier: tier, pool: map[string][]string{}}
-	out := directed()
+	out := append(directed(), directedJWK()...)
 	for len(out) < n {
-		switch k := r.Intn(100); {
+		switch k := r.Intn(110); {
+		case k >= 105:
+			out = append(out, g.exportCase())
+		case k >= 100:
+			out = append(out, g.importCase())
 		case k < 30:
 			out = append(out, g.honest("V"))
 		case k < 50:
